@@ -92,6 +92,10 @@ class Recorder:
                 if fr.startswith(bytes(data)):
                     sid = s
             self.emit("writeFault", cid, sid, t)
+        elif kind == "mutated":
+            # bytes handed to a congested transport changed before they could leave it: what goes out is not the frame of any submitted message
+            _, t, cid, was, now = e
+            self.emit("wireUnknown", cid, bytes(now).hex(), t)
         elif kind in ("udp_send", "udp_close"):
             self.emit(kind, *e[2:], e[1])
         else:
